@@ -416,8 +416,13 @@ func (l *List) ToDynamoDB() types.Item {
 	return attr
 }
 
-// Get returns the contained object in the position
+// Get returns the contained object in the position, a position outside of
+// the list is an undefined value
 func (l *List) Get(position int64) Object {
+	if position < 0 || position >= int64(len(l.Value)) {
+		return UNDEFINED
+	}
+
 	obj := l.Value[position]
 	if obj == nil {
 		return UNDEFINED
